@@ -254,6 +254,9 @@ pub fn run(prop: PathProp, tier: Tier, seed: u64) -> i32 {
     if prop == PathProp::C02 {
         c02_histories(&ctx, tier, seed);
         ctx.require("history_paths_after_problem_change");
+        twins(PathProp::C02, &ctx, tier, seed);
+        ctx.require("twin_paths[zero-weight-component]");
+        ctx.require("twin_paths[antipodal-quaternion]");
     }
     if prop == PathProp::C03 {
         c03_histories(&ctx, tier, seed);
@@ -266,7 +269,7 @@ pub fn run(prop: PathProp, tier: Tier, seed: u64) -> i32 {
     if prop == PathProp::C01 {
         c01_histories(&ctx, tier, seed);
         ctx.require("history_paths_after_checker_change");
-        c01_twins(&ctx, tier, seed);
+        twins(PathProp::C01, &ctx, tier, seed);
         ctx.require("twin_paths[zero-weight-component]");
         ctx.require("twin_paths[antipodal-quaternion]");
     }
@@ -281,7 +284,7 @@ pub fn run(prop: PathProp, tier: Tier, seed: u64) -> i32 {
             ctx.require("invalid_start_cases");
             ("cases = planner runs (4 planners x 6 space families, generated worlds incl. start marginally/deeply inside an obstacle and goal regions overlapping or covered by obstacles, planner-RNG and scripted sample sequences, virtual-time iteration budgets; plus re-setup histories with a changed checker, and degenerate-metric cases in which invalid states at distance exactly 0 from the start - a different value of a zero-weight component, the antipodal quaternion - are offered as goal / uniform samples); every state of every returned path is re-evaluated with the pure validity function; distinct+non-trivial = distinct returned paths (bit pattern) with >= 3 states", vec!["the validity function is pure and deterministic (built from slab / shell primitives)", "an invalid start must yield InvalidStartState from an initialised planner (PRM: non-empty roadmap)"])
         }
-        PathProp::C02 => ("cases = planner runs as for C01 on feasible-looking worlds; first state compared bit for bit with the installed start, goal predicate re-evaluated on the last state; distinct+non-trivial = distinct returned paths with >= 3 states", vec!["histories with re-setup / replaced problems are exercised by the C08 workload, which applies the same endpoint oracle"]),
+        PathProp::C02 => ("cases = planner runs as for C01 on feasible-looking worlds, call histories with replaced problems, and degenerate-metric cases (tree nodes / milestones at distance exactly 0 from the start that are different states: zero-weight component twins, antipodal quaternions); first state compared bit for bit with the installed start, goal predicate re-evaluated on the last state; distinct+non-trivial = distinct returned paths with >= 3 states", vec!["histories with re-setup / replaced problems are exercised by the C08 workload, which applies the same endpoint oracle"]),
         PathProp::C03 => {
             for k in ["edge_kind[extension]", "edge_kind[connect-junction]", "edge_kind[connect-goal-tree-edge]", "edge_kind[prm-link]", "edge_kind[prm-start-connection]", "edge_kind[rrtstar-rewired-edge]", "edge_kind[rrtstar-extension-or-chosen-parent]"] {
                 ctx.require(k);
@@ -431,7 +434,7 @@ fn c01_histories(ctx: &Ctx, tier: Tier, seed: u64) {
 /// coordinate that tells the twins apart excludes the start itself). A motion of length 0 to
 /// such a twin still ends in an invalid state, so it must never appear on a returned path.
 /// Valid twins / valid neighbours are offered as well, so that paths do come back.
-fn c01_twins(ctx: &Ctx, tier: Tier, seed: u64) {
+fn twins(prop: PathProp, ctx: &Ctx, tier: Tier, seed: u64) {
     use super::hist::{run_history, History, Op};
     use crate::spec::{Comp, Spec, Wrap, CK};
     use crate::world::{gen_params, GoalMode, GoalSpec, Prim, Problem, World, ALL_PLANNERS};
@@ -441,7 +444,7 @@ fn c01_twins(ctx: &Ctx, tier: Tier, seed: u64) {
         let mut b = Batch::default();
         let mut i = sh;
         while i < n {
-            let mut r = Sm::derive(seed, &[111, i as u64]);
+            let mut r = Sm::derive(seed, &[111 + prop as u64, i as u64]);
             let planner = ALL_PLANNERS[i % 4];
             let antipodal = (i / 4) % 3 == 2;
             let (spec, start, goal, world, label) = if antipodal {
@@ -525,12 +528,15 @@ fn c01_twins(ctx: &Ctx, tier: Tier, seed: u64) {
                 let goal = GoalSpec { centre: twin_at(1.5), radius: *r.pick(&[0.0, 1e-9, 0.05]), mode: GoalMode::List(list), fail_at: None, window: Some((zi, 0.5, 2.5)) };
                 (spec, start, goal, World { prims: vec![slab] }, "zero-weight-component")
             };
+            // C02 is about the end points: half of its cases have no obstacle, so that twins of
+            // the start become tree nodes / roadmap milestones
+            let world = if prop == PathProp::C02 && r.bool(0.5) { World::default() } else { world };
             let problem = Problem { spec: spec.clone(), world, start, goal, infeasible: None, tags: vec![format!("twin:{label}")] };
             let mut params = gen_params(&mut r, &spec, planner, false);
             params.goal_bias = *r.pick(&[0.3, 0.5, 0.9]);
             let ops = if planner == PKind::Prm { vec![Op::Setup(0), Op::Construct, Op::Solve(10)] } else { vec![Op::Setup(0), Op::Solve(12 + r.below(30) as u64)] };
             // now and then the twins also come out of the uniform sampler
-            let script = if r.bool(0.3) {
+            let script = if r.bool(if prop == PathProp::C02 { 0.6 } else { 0.3 }) {
                 let GoalMode::List(l) = &problem.goal.mode else { unreachable!() };
                 let mut sc: Vec<Vec<f64>> = l.clone();
                 for _ in 0..6 {
@@ -556,10 +562,18 @@ fn c01_twins(ctx: &Ctx, tier: Tier, seed: u64) {
                                 if p.len() >= 2 {
                                     b.distinct.insert(hash_path(p));
                                 }
-                                for (sig, det) in path_validity(&kit, &ev, p) {
-                                    let mut v = h.to_json();
-                                    v["property"] = json!("C01");
-                                    ctx.violate(&format!("{sig}:{}:zero-distance-twin", h.params.kind.name()), format!("{det} [{label}: the state is at distance 0 from the start but invalid]"), v);
+                                if prop == PathProp::C01 {
+                                    for (sig, det) in path_validity(&kit, &ev, p) {
+                                        let mut v = h.to_json();
+                                        v["property"] = json!("C01");
+                                        ctx.violate(&format!("{sig}:{}:zero-distance-twin", h.params.kind.name()), format!("{det} [{label}: the state is at distance 0 from the start but invalid]"), v);
+                                    }
+                                } else if let Ok(sp) = kit.build() {
+                                    for (sig, det) in path_endpoints(&kit, &sp, &h.problems[0], p) {
+                                        let mut v = h.to_json();
+                                        v["property"] = json!("C02");
+                                        ctx.violate(&format!("{sig}:{}:zero-distance-twin", h.params.kind.name()), format!("{det} [{label}: states at distance 0 from the start / from each other are not interchangeable]"), v);
+                                    }
                                 }
                             }
                         }
